@@ -18,7 +18,7 @@ import numpy as np
 from harness import common
 from harness.scripted import enumerate_branches
 
-MODULES = ['CirqVerif.Props.C12']
+MODULES = ['CirqVerif.Props.C12', 'CirqVerif.Props.C12Terminal']
 NQ = 3
 
 
@@ -539,8 +539,9 @@ def run(ctx: common.Run):
         cases.append((g, moments))
         reqs.append({'p': 'C12', 'op': 'unroll', 'moments': moments})
     outs = ctx.driver.ask(reqs)
+    term_outs = ctx.driver.ask([{'p': 'C12', 'op': 'terminal', 'moments': r['moments']} for r in reqs])
     dist_reqs, dist_meta = [], []
-    for (g, moments), spec in zip(cases, outs):
+    for (g, moments), spec, term in zip(cases, outs, term_outs):
         b = Builder(cirq, g.gates)
         try:
             wrapped = cirq.Circuit([cirq.Moment([b.node(x) for x in m]) for m in moments])
@@ -624,6 +625,9 @@ def run(ctx: common.Run):
             ('are_all_measurements_terminal', wrapped.are_all_measurements_terminal(), spec_circuit.are_all_measurements_terminal()),
             ('are_any_measurements_terminal', wrapped.are_any_measurements_terminal(), spec_circuit.are_any_measurements_terminal()),
             ('has_unitary', cirq.has_unitary(wrapped), cirq.has_unitary(spec_circuit)),
+            # the same two questions answered by the Lean definition on the specified flat form (Model.C12Terminal)
+            ('are_all_measurements_terminal:model', wrapped.are_all_measurements_terminal(), term['all']),
+            ('are_any_measurements_terminal:model', wrapped.are_any_measurements_terminal(), term['any']),
         ):
             ctx.count('check', 'query:' + name)
             if fw != fu:
